@@ -39,6 +39,7 @@ try:
         t = time.time()
         r = subprocess.run([os.path.join(VERIF, "check"), c, "--no-evidence"], capture_output=True, text=True, env=env, timeout=3600)
         lines = [l for l in r.stdout.splitlines() if l.startswith(("VIOLATION", "INCONCLUSIVE", "HARNESS-ERROR", "[" + c + "] obl"))]
+        lines.sort(key=lambda l: not l.startswith("VIOLATION"))
         ran["checks"][c] = dict(rc=r.returncode, wall=round(time.time() - t), lines=lines[:6])
         # keep the first replay file as an illustration
         rp = os.path.join(VERIF, "replays", c, "0.json")
@@ -55,6 +56,11 @@ if os.path.exists(mp):
         meta = json.load(open(mp))
     except Exception:
         meta = {"raw": open(mp).read()}
+old = meta.get("confirmation")
+if isinstance(old, dict) and isinstance(old.get("checks"), dict) and "checks" in ran:
+    merged = dict(old["checks"])
+    merged.update(ran["checks"])
+    ran["checks"] = merged
 meta["confirmation"] = ran
 json.dump(meta, open(mp, "w"), indent=1)
 print(json.dumps(ran, indent=1))
